@@ -151,5 +151,52 @@ impl<W: Write + io::Seek> ZipWriter<W> {
 //@use zw_raw_copy_file_rename
 //@use zw_raw_copy_file
 }
+// ---- append
+pub open spec fn cd_pos(d: Seq<u8>, start: int, i: int) -> int
+    decreases i
+{ if i <= 0 { start } else { cd_pos(d, start, i - 1) + cdh_len(d, cd_pos(d, start, i - 1)) } }
+pub open spec fn dir_parsed(d: Seq<u8>, start: int, files: Seq<ZipFileData>, aoff: u64) -> bool {
+    forall|j: int| 0 <= j < files.len() ==> cdh_at(d, #[trigger] cd_pos(d, start, j))
+        && parsed_matches(files[j], dec_cdh(d, cd_pos(d, start, j)), cd_pos(d, start, j) as u64, aoff)
+}
+pub open spec fn dir_start_of(files: Seq<ZipFileData>) -> int { if files.len() > 0 { files[0].central_header_start as int } else { 0 } }
+pub uninterp spec fn append_offset(files: Seq<ZipFileData>, d: Seq<u8>) -> u64;
+// T7x in new_append: `(0..n).map(|_| central_header_to_zip_file(..)).collect::<Result<Vec<_>, _>>()?`
+// ASSUMED: collect of n calls = the first Err, or the Ok values in order; the effect of the n calls is the loop
+// proved for ZipArchive::new in unit U8b (same callee contract), restated here
+#[verifier::external_body]
+fn shim_collect_central<R: Read + io::Seek>(reader: &mut R, archive_offset: u64, n: usize) -> (r: ZipResult<Vec<ZipFileData>>)
+    requires dev_ok(old(reader)),
+    ensures
+        rd_step(old(reader), final(reader)),
+        r is Ok ==> final(reader).g_fault() == old(reader).g_fault(),
+        r matches Ok(files) ==> files@.len() == n && dir_parsed(old(reader).g_bytes(), old(reader).g_pos(), files@, archive_offset),
+{ unimplemented!() }
+// parsed entries carry DOS times, whose year is at least 1980 (DateTime::from_msdos, proved in U6)
+pub proof fn lemma_parsed_files_ok(d: Seq<u8>, start: int, files: Seq<ZipFileData>, aoff: u64)
+    requires dir_parsed(d, start, files, aoff)
+    ensures files_ok(files)
+{
+    assert forall|i: int| 0 <= i < files.len() implies (#[trigger] files[i]).last_modified_time.year >= 1980 by {
+        let h = dec_cdh(d, cd_pos(d, start, i));
+        assert(parsed_matches(files[i], h, cd_pos(d, start, i) as u64, aoff));
+        assert(files[i].last_modified_time == msdos_dt(h.date, h.time));
+        let dd: u16 = h.date;
+        assert(((dd & 0b1111111000000000) >> 9) <= 127) by(bit_vector);
+    }
+}
+// T14: Drop::drop verified as an inherent method so it can carry the representation invariant as precondition.
+// It calls the same `finalize` as finish() from the same state unless the writer is already closed (C01: identical bytes).
+//@impl src/write.rs | impl<W: Write + io::Seek> Drop for ZipWriter<W>
+impl<W: Write + io::Seek> ZipWriter<W> {
+//@use zw_drop
+}
+// T7 `stderr`
+#[verifier::external_body]
+fn shim_stderr_note() { }
+//@impl src/write.rs | impl<A: Read + Write + io::Seek> ZipWriter<A>
+impl<A: Read + Write + io::Seek> ZipWriter<A> {
+//@use zw_new_append
+}
 } // verus!
 fn main() {}
